@@ -242,6 +242,7 @@ type genV struct {
 	Staking     bool
 	codes       map[uint64][]byte
 	canon       map[string]string // canonical JSON of the four module sections
+	invalid     map[string]string // module -> error of the module's own GenesisState.Validate()
 }
 
 func canonJSON(raw json.RawMessage) string {
@@ -257,13 +258,16 @@ func projectGen(t *testing.T, c *Chain, appState []byte) *genV {
 	var gs map[string]json.RawMessage
 	require.NoError(t, json.Unmarshal(appState, &gs))
 	cdc := c.S.EncodingConfig.Codec
-	g := &genV{codes: map[uint64][]byte{}, canon: map[string]string{}}
+	g := &genV{codes: map[uint64][]byte{}, canon: map[string]string{}, invalid: map[string]string{}}
 	for _, m := range []string{"evm", "feemarket", "cpc", "vauth"} {
 		g.canon[m] = canonJSON(gs[m])
 	}
 	var eg evmGenesis
 	require.NoError(t, cdc.UnmarshalJSON(gs["evm"], &eg))
 	g.EvmParams = id64(mustMarshal(&eg.Params))
+	if err := eg.Validate(); err != nil {
+		g.invalid["evm"] = err.Error()
+	}
 	for _, a := range eg.Accounts {
 		code := common.Hex2Bytes(a.Code)
 		id := codeID(code)
@@ -276,11 +280,17 @@ func projectGen(t *testing.T, c *Chain, appState []byte) *genV {
 	}
 	var fg fmGenesis
 	require.NoError(t, cdc.UnmarshalJSON(gs["feemarket"], &fg))
+	if err := fg.Validate(); err != nil {
+		g.invalid["feemarket"] = err.Error()
+	}
 	g.BaseFee = fg.Params.BaseFee.BigInt()
 	g.MinGasPrice = fg.Params.MinGasPrice.BigInt()
 	var cg cpctypes.GenesisState
 	require.NoError(t, cdc.UnmarshalJSON(gs["cpc"], &cg))
 	g.CpcParams = id64(mustMarshal(&cg.Params))
+	if err := cg.Validate(); err != nil {
+		g.invalid["cpc"] = err.Error()
+	}
 	g.Erc20Native = cg.DeployErc20Native
 	g.Staking = cg.DeployStakingContract
 	// the vauth genesis type has no field; anything in the document would be ignored by InitGenesis
